@@ -421,6 +421,9 @@ func c14Run(x *core.Ctx) {
 				if !supplied && (i/5)%3 == 2 && !strings.HasSuffix(ts, "!") {
 					c.Set("default", "null")
 				}
+				if !supplied && (i/5)%6 == 1 && strings.Contains(ts, "[") {
+					c.Set("default", "single") // a single value written where a list is declared
+				}
 			}
 			if supplied {
 				v := g.value(t, 2)
@@ -570,6 +573,9 @@ func c14Check(x *core.Ctx, c *core.Case) {
 		decl += " = " + strings.Repeat("[", depth) + d + strings.Repeat("]", depth)
 		if c.Get("default") == "null" {
 			decl = "$v: " + ts + " = null"
+		}
+		if c.Get("default") == "single" {
+			decl = "$v: " + ts + " = " + d
 		}
 	}
 	doc, perr := parser.ParseQuery(&ast.Source{Name: "op.graphql", Input: "query Q(" + decl + ") { f(any: {k: $v}) }"})
